@@ -348,6 +348,46 @@ def permute_page(text: str, rng: random.Random) -> str:
     return text[:content[0]] + body + text[content[1]:]
 
 
+def reorder_nodes(text: str, rng: random.Random) -> str:
+    """shuffle the document order of the <n> children of every top-level fragment (bonds stay where they are, a
+    node keeps everything nested in it): the same drawing with its atoms numbered differently"""
+    stack, jobs, cur = [], [], None      # cur: [fragment depth, list of node spans]
+    depth = 0
+    for m in _TAG.finditer(text):
+        close, tag, selfclose = m.group(1), m.group(2), m.group(4)
+        if not close:
+            if tag == "fragment" and cur is None and not selfclose:
+                cur = [depth, []]
+            elif tag == "n" and cur is not None and depth == cur[0] + 1:
+                if selfclose:
+                    cur[1].append((m.start(), m.end()))
+                else:
+                    stack.append(m.start())
+            if not selfclose:
+                depth += 1
+        else:
+            depth -= 1
+            if cur is not None:
+                if tag == "n" and depth == cur[0] + 1 and stack:
+                    cur[1].append((stack.pop(), m.end()))
+                elif tag == "fragment" and depth == cur[0]:
+                    jobs.append(cur[1])
+                    cur = None
+    for spans in reversed(jobs):
+        if len(spans) < 2:
+            continue
+        pieces = [text[a:b] for a, b in spans]
+        order = list(range(len(pieces)))
+        rng.shuffle(order)
+        out, last = [], spans[0][0]
+        for k, (a, b) in enumerate(spans):
+            out.append(text[last:a])
+            out.append(pieces[order[k]])
+            last = b
+        text = text[:spans[0][0]] + "".join(out) + text[spans[-1][1]:]
+    return text
+
+
 def _fmt(x: float) -> str:
     s = f"{x:.4f}".rstrip("0").rstrip(".")
     return s if s not in ("-0", "") else "0"
